@@ -99,6 +99,8 @@ def crossratio(
     ):
         l = a.meet(b)
         l = cast(LineTensor, l)
+        if not np.all(c.contains(l) & d.contains(l)):
+            raise NotConcurrent("The planes do not pass through a common line: " + str([a, b, c, d]))
         e = PlaneCollection.from_array(l.direction.array)
         a, b, c, d = e.meet(a), e.meet(b), e.meet(c), e.meet(d)
         m = e.basis_matrix
